@@ -576,10 +576,37 @@ fn torn_write_cases(cx: &Cx, w: WriteOp, old_bytes: &[u8], old: &Content, offset
             unsafe {
                 libc::setrlimit(libc::RLIMIT_FSIZE, &lim0);
             }
-            match r {
+            let (res, new) = match r {
                 Ok((res, new)) => (Ok(res), new),
                 Err(p) => (Err(p), old.clone()),
+            };
+            // the manager that saw the write fail keeps serving: what it returns for the current password (old or new)
+            // must be what a fresh manager reads from the file ("in the same process or after reopening the file")
+            let mut pws = vec![old.pw.clone()];
+            if new.pw != old.pw {
+                pws.push(new.pw.clone());
             }
+            for pw in &pws {
+                for id in 0..2 {
+                    let same = retrieve(&m, id, pw).await;
+                    let reopened = retrieve(&mgr(&path), id, pw).await;
+                    cx.distinct.eval();
+                    let agree = match (&same, &reopened) {
+                        (Ok(Ok(a)), Ok(Ok(b))) => a == b,
+                        (Ok(Err(_)), Ok(Err(_))) => true,
+                        _ => false,
+                    };
+                    if !agree {
+                        let show = |r: &Result<Result<Vec<u8>, String>, String>| match r { Ok(Ok(b)) => json!(hex_short(b)), Ok(Err(e)) => json!(err_class(e)), Err(_) => json!("panic") };
+                        let (a, b) = (show(&same), show(&reopened));
+                        cx.run.violation_lazy("C18.same", feats(&[("write", w.name().into()), ("shape", "same-process-answer-differs-from-the-file-after-a-failed-write".into())]), || {
+                            (json!({"write": w.name(), "write_fails_after_bytes": n, "operation_returned": format!("{res:?}"), "id": IDS[id], "password": if *pw == old.pw { "the one before the write" } else { "the new one" }, "same_process": a, "after_reopen": b}),
+                             format!("{} failed after {n} bytes; the same manager then answers {} for {} where the file holds {}", w.name(), a, IDS[id], b))
+                        });
+                    }
+                }
+            }
+            (res, new)
         });
         n_cases += 1;
         rt().block_on(async {
